@@ -12,6 +12,7 @@ mod alias;
 mod wire;
 mod limits;
 mod driver_tokio;
+mod driver_threaded;
 mod refdec;
 mod refenc;
 
